@@ -448,7 +448,7 @@ pub fn cross_scope_program(dir: usize, jump: usize) -> (Prog, Id) {
 // (3) One fault
 // ---------------------------------------------------------------------------
 
-pub const FAULTS: [&str; 9] = [
+pub const FAULTS: [&str; 10] = [
     "division by zero",
     "integer overflow",
     "subscript out of range",
@@ -458,6 +458,7 @@ pub const FAULTS: [&str; 9] = [
     "error inside a called FUNCTION",
     "RETURN without GOSUB",
     "illegal function call after a user FUNCTION returned in the same statement",
+    "illegal function call after a user FUNCTION that executes ON ERROR RESUME NEXT returned in the same statement",
 ];
 
 pub const CONTAINERS: [&str; 17] = [
@@ -502,6 +503,7 @@ fn failing(b: &mut B, fault: usize) -> Stmt {
         5 => b.s(K::Call("Fail".into(), vec![])),
         6 => b.assign(var("X%"), call("FailF%", vec![num(1)])),
         8 => b.assign(var("S$"), bin(BinOp::Add, call("Okf$", vec![num(1)]), builtin("LEFT$", vec![st("abc"), var("M%")]))),
+        9 => b.assign(var("S$"), bin(BinOp::Add, call("Arm$", vec![num(1)]), builtin("LEFT$", vec![st("abc"), var("M%")]))),
         _ => b.s(K::Return(None)),
     }
 }
@@ -721,6 +723,12 @@ pub fn fault_program(fault: usize, container: usize, position: usize, handler: u
         let body = vec![b.print(vec![st("fail in")]), b.assign(var("Q%"), bin(BinOp::Div, num(1), var("Z%"))), b.print(vec![st("fail out")])];
         let id = b.id();
         subs.push(SubDef { id, name: "Fail".into(), is_function: false, params: vec![], body, is_static: false });
+    }
+    if fault == 9 {
+        // the function arms ON ERROR RESUME NEXT while the calling statement is under way
+        let body = vec![b.s(K::OnErrorResumeNext), b.print(vec![st("arm")]), b.assign(var("Arm$"), st("x"))];
+        let id = b.id();
+        subs.push(SubDef { id, name: "Arm$".into(), is_function: true, params: vec![Param { name: "P%".into(), ty: None, is_array: false }], body, is_static: false });
     }
     if fault == 8 {
         let body = vec![b.print(vec![st("okf")]), b.assign(var("Okf$"), st("x"))];
